@@ -211,7 +211,43 @@ def run(ctx):
         DYN[0] = False
 
 
+def sparse_tt(rng, n, used):
+    """a random function of the variables in `used` only (the others stay declared but unused)"""
+    t = rng.getrandbits(1 << n)
+    for j in range(n):
+        if j not in used:
+            t = T.cofactor(t, n, {j: rng.random() < 0.5})
+    return t
+
+
+def unused_streams(ctx, q, rng):
+    """managers in which some (or all) declared variables occur in no node: the order is
+    still a bijection that every reordering must move"""
+    n = 5
+    for _ in range(6 if q else 60):
+        used = rng.sample(range(n), rng.choice([0, 1, 2, 2, 3]))
+        tts = [sparse_tt(rng, n, used) for _ in range(rng.randint(1, 2))]
+        order = list(range(n))
+        rng.shuffle(order)
+        vs = list(range(n))
+        rng.shuffle(vs)
+        pairing = {vs[0]: vs[1]} if rng.random() < 0.5 else {vs[0]: vs[1], vs[2]: vs[3]}
+        pairs(ctx, n, order, tts, pairing)
+    for _ in range(4 if q else 40):
+        n = rng.choice([3, 4, 5])
+        used = rng.sample(range(n), rng.randint(0, n - 1))
+        tts = [sparse_tt(rng, n, used) for _ in range(rng.randint(1, 2))]
+        order = list(range(n))
+        rng.shuffle(order)
+        target = list(range(n))
+        rng.shuffle(target)
+        to_order(ctx, n, order, tts, target)
+        sifting(ctx, n, order, tts, reps=1, aged=False)
+        swaps(ctx, n, order, tts, reps=4, aged=False)
+
+
 def run_streams(ctx, q, rng):
+    unused_streams(ctx, q, rng)
     # swaps: pairs of held functions over 3 variables, every order
     for order in gen.orders(3):
         for _ in range(3 if q else 40):
